@@ -27,8 +27,9 @@ def handle(job):
       nm = f"p{target}"
       grads[0] = dict(grads[0]); grads[0][nm] = jnp.zeros_like(grads[0][nm])
     main = tfrun.Runner(o, shapes, seed)
-    none = tfrun.Runner(dict(o, graft="NONE"), shapes, seed)
-    warm = tfrun.Runner(dict(o, Start=10 ** 6), shapes, seed)
+    # the twins that serve as oracles are fresh objects that never saw another tree
+    none = tfrun.Runner(dict(o, graft="NONE", warm_shapes=None), shapes, seed)
+    warm = tfrun.Runner(dict(o, Start=10 ** 6, warm_shapes=None), shapes, seed)
     name = f"p{target}"
     for t in range(T):
       u = np.asarray(main.step(grads[t])[name], np.float64)
